@@ -61,9 +61,17 @@ def cases(tier, rng):
         hs = len(W.GREETING + W.ready(pt.encode()))
         for nothers in ((0, 1) if tier == "quick" else (0, 1, 2)):
             others = "bc"[:nothers]
+            bounds = {hs}
+            pos_ = hs
+            for m_ in peer_msgs(t, b"a"):
+                pos_ += len(W.msg(m_))
+                bounds.add(pos_)
             for cut in range(0, len(stream) + 1):
-                for kind in ("eof", "ConnectionReset"):
+                for kind in ("eof", "ConnectionReset", "junk"):
                     if t == "PUSH" and cut > hs:
+                        continue
+                    # a protocol error (a command frame with an empty name) in place of the end: only where a frame can start
+                    if kind == "junk" and cut not in bounds:
                         continue
                     ops = ["attach %s %s" % (o, pt) for o in others]
                     ops.append("attach a %s raw=%s cut=%d cutkind=%s" % (pt, W.tok(stream), cut, kind))
